@@ -19,6 +19,11 @@ class BlockList:
         self.update_neighbours(block)
 
     def grade_blocks(self) -> None:
+        # start from scratch if this is not the first call (a mesh can be written more than once)
+        for block in self.blocks:
+            for axis in block.axes:
+                axis.wires.reset()
+
         for block in self.blocks:
             block.grade()
 
